@@ -677,4 +677,709 @@ theorem resolvePlain_neg (s : Str) (hne : s ≠ []) (hall : s.all isDigit = true
     all_goals exact hw _ ⟨_, _, rfl, by decide⟩ h
 
 
+/-! ## Resolution of layer-1 syntax trees -/
+
+theorem toDigits10_isDigit (n : Nat) : (Nat.toDigits 10 n).all isDigit = true := by
+  rw [List.all_eq_true]
+  intro c hc
+  rw [isDigit_eq]
+  exact Nat.isDigit_of_mem_toDigits (b := 10) (by decide) (by decide) hc
+
+theorem resolvePlain_nullText (v : Nat) : resolvePlain (nullText v) = .null := by
+  have : v % 5 = 0 ∨ v % 5 = 1 ∨ v % 5 = 2 ∨ v % 5 = 3 ∨ v % 5 = 4 := by omega
+  rcases this with h | h | h | h | h <;> simp only [nullText, h] <;> decide
+
+theorem resolvePlain_boolText (b : Bool) (v : Nat) : resolvePlain (boolText b v) = .bool b := by
+  have : v % 3 = 0 ∨ v % 3 = 1 ∨ v % 3 = 2 := by omega
+  cases b <;> rcases this with h | h | h <;> simp only [boolText, h] <;> decide
+
+theorem resolvePlain_intText (i : Int) (v : Nat) (h : v % 5 = 0) : resolvePlain (intText i v) = .int i := by
+  unfold intText
+  simp only [h]
+  split
+  · rename_i hi
+    rw [natDigits, resolvePlain_digits _ Nat.toDigits_ne_nil (toDigits10_isDigit _),
+      natOfDigits_toDigits 10 (by decide) (by decide)]
+    congr 1; omega
+  · rename_i hi
+    rw [natDigits, resolvePlain_neg _ Nat.toDigits_ne_nil (toDigits10_isDigit _),
+      natOfDigits_toDigits 10 (by decide) (by decide)]
+    congr 1; omega
+
+mutual
+theorem resolveNode : (n : PNode) → n.l1 = true → ∀ env, n.node.resolve env = .ok (n.tree, env)
+  | .null v, _, env => by simp [PNode.node, Node.resolve, resolveScalar, resolvePlain_nullText, PNode.tree]; rfl
+  | .bool b v, _, env => by simp [PNode.node, Node.resolve, resolveScalar, resolvePlain_boolText, PNode.tree]; rfl
+  | .int i v, h, env => by
+    have hv : v % 5 = 0 := by simpa [PNode.l1] using h
+    simp [PNode.node, Node.resolve, resolveScalar, resolvePlain_intText i v hv, PNode.tree]; rfl
+  | .str s st, h, env => by
+    cases st <;> simp [PNode.l1] at h
+    simp [PNode.node, Node.resolve, resolveScalar, PNode.tree]; rfl
+  | .seq fl st c items, h, env => by
+    have hfl : fl = true := by cases fl <;> simp [PNode.l1] at h ⊢
+    subst hfl
+    have hi : items.l1 = true := by simpa [PNode.l1] using h
+    simp [PNode.node, Node.resolve, resolveItems items hi env, PNode.tree]; rfl
+  | .map fl st c es, h, env => by
+    have hfl : fl = true := by cases fl <;> simp [PNode.l1] at h ⊢
+    subst hfl
+    have hi : es.l1 = true := by simpa [PNode.l1] using h
+    simp [PNode.node, Node.resolve, resolveEntries es hi env, PNode.tree]; rfl
+  | .anchored a n, h, _ => by simp [PNode.l1] at h
+  | .alias a t, h, _ => by simp [PNode.l1] at h
+theorem resolveItems : (items : PItems) → items.l1 = true → ∀ env, resolveList env items.nodes = .ok (items.trees, env)
+  | .nil, _, env => by simp [PItems.nodes, resolveList, PItems.trees]
+  | .cons m x r, hi, env => by
+    have hx : x.l1 = true := by simp [PItems.l1] at hi; exact hi.1
+    have hr : r.l1 = true := by simp [PItems.l1] at hi; exact hi.2
+    simp [PItems.nodes, resolveList, resolveNode x hx env, resolveItems r hr env, PItems.trees]; rfl
+theorem resolveEntries : (es : PEntries) → es.l1 = true → ∀ env, resolveKVs env es.nodes = .ok (es.trees, env)
+  | .nil, _, env => by simp [PEntries.nodes, resolveKVs, PEntries.trees]
+  | .cons m k ks x r, hi, env => by
+    have hks : ∃ sh eu, ks = .double sh eu := by
+      cases ks <;> simp [PEntries.l1] at hi
+      exact ⟨_, _, rfl⟩
+    obtain ⟨sh, eu, rfl⟩ := hks
+    have hx : x.l1 = true := by simp [PEntries.l1] at hi; exact hi.1
+    have hr : r.l1 = true := by simp [PEntries.l1] at hi; exact hi.2
+    simp [PEntries.nodes, resolveKVs, keyNode, resolveKey, resolveNode x hx env, resolveEntries r hr env, PEntries.trees]; rfl
+end
+
+
+/-! ## Flow text contains no line break; fuel bound -/
+
+def okc (c : Char) : Bool := c != '\n' && c != '\r'
+
+theorem okc_simple (c : Char) (h : simpleChar c = true) : okc c = true := by
+  simp only [okc, Bool.and_eq_true, bne_iff_ne]
+  constructor <;> (intro hc; subst hc; exact absurd h (by decide))
+
+theorem okc_tok (t : Str) (h : tokOk t) : t.all okc = true := by
+  rw [List.all_eq_true]; intro c hc
+  exact okc_simple c (List.all_eq_true.mp h.1 c hc)
+
+theorem okc_spaces (k : Nat) : (spaces k).all okc = true := by
+  simp [spaces, List.all_replicate]; right; decide
+
+theorem okc_hexFixed (w n : Nat) : (hexFixed w n).all okc = true := by
+  induction w generalizing n with
+  | zero => simp [hexFixed]
+  | succ w ih =>
+    simp only [hexFixed, List.all_append, ih, List.all_cons, List.all_nil, Bool.and_true, Bool.true_and]
+    have hd : n % 16 < 16 := Nat.mod_lt _ (by omega)
+    have : n % 16 = 0 ∨ n % 16 = 1 ∨ n % 16 = 2 ∨ n % 16 = 3 ∨ n % 16 = 4 ∨ n % 16 = 5 ∨ n % 16 = 6 ∨ n % 16 = 7 ∨
+      n % 16 = 8 ∨ n % 16 = 9 ∨ n % 16 = 10 ∨ n % 16 = 11 ∨ n % 16 = 12 ∨ n % 16 = 13 ∨ n % 16 = 14 ∨ n % 16 = 15 := by omega
+    rcases this with h | h | h | h | h | h | h | h | h | h | h | h | h | h | h | h <;> rw [h] <;> decide
+
+theorem okc_numEscape (c : Char) : (numEscape c).all okc = true := by
+  unfold numEscape
+  simp only
+  split
+  · simp only [List.all_cons, okc_hexFixed, Bool.and_true]; decide
+  · split
+    · simp only [List.all_cons, okc_hexFixed, Bool.and_true]; decide
+    · simp only [List.all_cons, okc_hexFixed, Bool.and_true]; decide
+
+theorem okc_printable (c : Char) (h : isPrintable c = true) : okc c = true := by
+  simp only [okc, Bool.and_eq_true, bne_iff_ne]
+  constructor <;> (intro hc; subst hc; exact absurd h (by decide))
+
+theorem okc_shortEscape (c e : Char) (h : shortEscape? c = some e) : okc e = true := by
+  unfold shortEscape? at h
+  split at h <;> simp at h <;> subst h <;> decide
+
+theorem okc_dqChar (sh eu : Bool) (c : Char) : (dqChar sh eu c).all okc = true := by
+  unfold dqChar
+  split
+  · decide
+  · split
+    · decide
+    · split
+      · rename_i h3
+        have hp : isPrintable c = true := by
+          simp only [Bool.and_eq_true] at h3; exact h3.1.1
+        simp [okc_printable c hp]
+      · split
+        · split
+          · rename_i e he
+            simp only [List.all_cons, List.all_nil, Bool.and_true, okc_shortEscape c e he]; decide
+          · exact okc_numEscape c
+        · exact okc_numEscape c
+
+theorem okc_dqText (sh eu : Bool) (s : Str) : (dqText sh eu s).all okc = true := by
+  simp only [dqText, List.all_cons, List.all_append, List.all_nil, Bool.and_true]
+  refine Bool.and_eq_true_iff.mpr ⟨by decide, Bool.and_eq_true_iff.mpr ⟨?_, by decide⟩⟩
+  rw [List.all_eq_true]
+  intro x hx
+  obtain ⟨c, _, hc⟩ := List.mem_flatMap.mp hx
+  exact List.all_eq_true.mp (okc_dqChar sh eu c) x hc
+
+mutual
+theorem okc_flow : (n : PNode) → n.l1 = true → n.flow.all okc = true
+  | .null v, h => okc_tok _ (tokOk_nullText v (by simpa [PNode.l1] using h))
+  | .bool b v, _ => okc_tok _ (tokOk_boolText b v)
+  | .int i v, h => okc_tok _ (tokOk_intText i v (by simpa [PNode.l1] using h))
+  | .str s st, h => by
+    cases st <;> simp [PNode.l1] at h
+    exact okc_dqText _ _ s
+  | .seq fl st c items, h => by
+    have hfl : fl = true := by cases fl <;> simp [PNode.l1] at h ⊢
+    subst hfl
+    have hi : items.l1 = true := by simpa [PNode.l1] using h
+    simp only [PNode.flow, List.all_cons, List.all_append, okc_flowItems items hi true, List.all_nil, Bool.and_true]
+    decide
+  | .map fl st c es, h => by
+    have hfl : fl = true := by cases fl <;> simp [PNode.l1] at h ⊢
+    subst hfl
+    have hi : es.l1 = true := by simpa [PNode.l1] using h
+    simp only [PNode.flow, List.all_cons, List.all_append, okc_flowEntries es hi true, List.all_nil, Bool.and_true]
+    decide
+  | .anchored a n, h => by simp [PNode.l1] at h
+  | .alias a t, h => by simp [PNode.l1] at h
+theorem okc_flowItems : (items : PItems) → items.l1 = true → ∀ first, (items.flow first).all okc = true
+  | .nil, _, _ => by simp [PItems.flow]
+  | .cons m x r, hi, first => by
+    have hx : x.l1 = true := by simp [PItems.l1] at hi; exact hi.1
+    have hr : r.l1 = true := by simp [PItems.l1] at hi; exact hi.2
+    simp only [PItems.flow, List.all_append, okc_spaces, okc_flow x hx, okc_flowItems r hr false, Bool.and_true, Bool.true_and]
+    cases first <;> decide
+theorem okc_flowEntries : (es : PEntries) → es.l1 = true → ∀ first, (es.flow first).all okc = true
+  | .nil, _, _ => by simp [PEntries.flow]
+  | .cons m k ks x r, hi, first => by
+    have hks : ∃ sh eu, ks = .double sh eu := by
+      cases ks <;> simp [PEntries.l1] at hi
+      exact ⟨_, _, rfl⟩
+    obtain ⟨sh, eu, rfl⟩ := hks
+    have hx : x.l1 = true := by simp [PEntries.l1] at hi; exact hi.1
+    have hr : r.l1 = true := by simp [PEntries.l1] at hi; exact hi.2
+    simp only [PEntries.flow, keyText, List.all_append, List.all_cons, okc_spaces, okc_dqText, okc_flow x hx,
+      okc_flowEntries r hr false, Bool.and_true, Bool.true_and]
+    cases first <;> decide
+end
+
+/-! fuel bound: `need n + 2 ≤ 4 * |flow text|` -/
+
+theorem flow_length_pos (n : PNode) (h : n.l1 = true) : 1 ≤ n.flow.length := by
+  obtain ⟨c, r, hc, _⟩ := goodHead_flow n h
+  rw [hc]; simp
+
+mutual
+theorem need_bound : (n : PNode) → n.l1 = true → n.need + 2 ≤ 4 * n.flow.length
+  | .null v, h => by have := flow_length_pos (.null v) h; simp [PNode.need] at *; omega
+  | .bool b v, h => by have := flow_length_pos (.bool b v) h; simp [PNode.need] at *; omega
+  | .int i v, h => by have := flow_length_pos (.int i v) h; simp [PNode.need] at *; omega
+  | .str s st, h => by have := flow_length_pos (.str s st) h; simp [PNode.need] at *; omega
+  | .seq fl st c items, h => by
+    have hfl : fl = true := by cases fl <;> simp [PNode.l1] at h ⊢
+    subst hfl
+    have hi : items.l1 = true := by simpa [PNode.l1] using h
+    have := need_boundItems items hi true
+    simp [PNode.need, PNode.flow] at *; omega
+  | .map fl st c es, h => by
+    have hfl : fl = true := by cases fl <;> simp [PNode.l1] at h ⊢
+    subst hfl
+    have hi : es.l1 = true := by simpa [PNode.l1] using h
+    have := need_boundEntries es hi true
+    simp [PNode.need, PNode.flow] at *; omega
+  | .anchored a n, h => by simp [PNode.l1] at h
+  | .alias a t, h => by simp [PNode.l1] at h
+theorem need_boundItems : (items : PItems) → items.l1 = true → ∀ first, items.need ≤ 4 * (items.flow first).length + 4
+  | .nil, _, _ => by simp [PItems.need]
+  | .cons m x r, hi, first => by
+    have hx : x.l1 = true := by simp [PItems.l1] at hi; exact hi.1
+    have hr : r.l1 = true := by simp [PItems.l1] at hi; exact hi.2
+    have h1 := need_bound x hx
+    have h2 := need_boundItems r hr false
+    simp only [PItems.need, PItems.flow, List.length_append]
+    omega
+theorem need_boundEntries : (es : PEntries) → es.l1 = true → ∀ first, es.need ≤ 4 * (es.flow first).length + 4
+  | .nil, _, _ => by simp [PEntries.need]
+  | .cons m k ks x r, hi, first => by
+    have hx : x.l1 = true := by cases ks <;> simp [PEntries.l1] at hi <;> exact hi.1
+    have hr : r.l1 = true := by cases ks <;> simp [PEntries.l1] at hi <;> exact hi.2
+    have h1 := need_bound x hx
+    have h2 := need_boundEntries r hr false
+    simp only [PEntries.need, PEntries.flow, List.length_append, List.length_cons]
+    omega
+end
+
+
+/-! ## A document consisting of one inline line -/
+
+theorem normBreaks_id (s : Str) (h : s.all (· != '\r') = true) : normBreaks s = s := by
+  induction s with
+  | nil => simp [normBreaks]
+  | cons c t ih =>
+    simp only [List.all_cons, Bool.and_eq_true] at h
+    have hc : c ≠ '\r' := by simpa using h.1
+    rw [normBreaks.eq_def]
+    split
+    · rename_i heq; simp at heq
+    · rename_i heq; exact absurd (List.cons.inj heq).1 hc
+    · rename_i heq; exact absurd (List.cons.inj heq).1 hc
+    · rename_i c' rest _ _ heq
+      obtain ⟨rfl, rfl⟩ := List.cons.inj heq
+      rw [ih h.2]
+
+theorem splitNl_line (X : Str) (h : X.all okc = true) : splitNl (X ++ ['\n']) = [X, []] := by
+  induction X with
+  | nil => simp [splitNl]
+  | cons c t ih =>
+    simp only [List.all_cons, Bool.and_eq_true] at h
+    have hc : c ≠ '\n' := by
+      have := h.1; simp only [okc, Bool.and_eq_true, bne_iff_ne] at this; exact this.1
+    simp only [List.cons_append, splitNl, ih h.2]
+    simp [hc]
+
+theorem linesOf_line (c : Char) (r : Str) (hsp : c ≠ ' ') (h : (c :: r).all okc = true) :
+    linesOf ((c :: r) ++ ['\n']) = [⟨0, c :: r⟩] := by
+  unfold linesOf
+  rw [splitNl_line _ h]
+  simp [mkLine, List.takeWhile_cons, List.dropWhile_cons, hsp]
+
+/-- Head characters of layer-1 inline text. -/
+def headClass (c : Char) : Prop := simpleChar c = true ∨ c = '"' ∨ c = '[' ∨ c = '{'
+
+theorem headClass_ne (c : Char) (h : headClass c) (d : Char)
+    (hd : simpleChar d = false ∧ d ≠ '"' ∧ d ≠ '[' ∧ d ≠ '{') : c ≠ d := by
+  intro e; subst e
+  rcases h with h | h | h | h
+  · rw [hd.1] at h; cases h
+  · exact hd.2.1 h
+  · exact hd.2.2.1 h
+  · exact hd.2.2.2 h
+
+theorem parseBlock_inline (f : Nat) (c : Char) (r : Str) (nd : Node)
+    (hsp : c ≠ ' ') (htab : c ≠ '\t') (hhash : c ≠ '#') (hbar : c ≠ '|') (hgt : c ≠ '>') (hamp : c ≠ '&')
+    (hdash : isDash (c :: r) = false)
+    (hkey : splitKey (c :: r) = .ok none)
+    (hinl : parseInline (c :: r) = .ok nd) :
+    parseBlock (f + 2) 0 false [⟨0, c :: r⟩] = .ok (nd, []) := by
+  have hfill : Line.isFiller ⟨0, c :: r⟩ = false := by simp [Line.isFiller, hhash]
+  have hds : dropSpaces (c :: r) = c :: r := by simp [dropSpaces, List.dropWhile_cons, hsp]
+  have htw : List.takeWhile (fun x => x == ' ') (c :: r) = [] := by simp [List.takeWhile_cons, hsp]
+  have hpa : parseAfter (f + 1) (c :: r) 0 0 false false [] = .ok (nd, []) := by
+    rw [parseAfter]
+    simp only [htw, hds, List.length_nil, List.head?_cons, show (some c == some '\t') = false by simp [htab],
+      Bool.false_eq_true, if_false, List.isEmpty_cons, show (some c == some '#') = false by simp [hhash],
+      Bool.false_and, Bool.or_self]
+    split
+    · rename_i heq; exact absurd (List.cons.inj heq).1 hbar
+    · rename_i heq; exact absurd (List.cons.inj heq).1 hgt
+    · rename_i heq; exact absurd (List.cons.inj heq).1 hamp
+    · simp only [hdash, Bool.false_eq_true, if_false, hkey, hinl]
+      rfl
+  rw [parseBlock]
+  simp only [skipFill, hfill, Bool.false_eq_true, if_false, List.head?_cons]
+  simp only [show (some c == some '\t') = false by simp [htab], Bool.false_eq_true, if_false,
+    show (0 + 1 = 0) = False by simp, false_and, hdash, Nat.not_lt_zero, hkey, Bool.and_false, hpa]
+  simp [skipFill]
+
+theorem loadChars_inline (c : Char) (r : Str) (nd : Node) (t : Tree)
+    (hc : headClass c) (hok : (c :: r).all okc = true)
+    (hdash : isDash (c :: r) = false)
+    (hstart : ("---".toList).isPrefixOf (c :: r) = false)
+    (hkey : splitKey (c :: r) = .ok none)
+    (hinl : parseInline (c :: r) = .ok nd)
+    (hres : nd.resolve [] = .ok (t, [])) :
+    loadChars ((c :: r) ++ ['\n']) = .ok [t] := by
+  have hsp : c ≠ ' ' := headClass_ne c hc ' ' (by decide)
+  have hbom : c ≠ '﻿' := headClass_ne c hc '﻿' (by decide)
+  have htab : c ≠ '\t' := headClass_ne c hc '\t' (by decide)
+  have hhash : c ≠ '#' := headClass_ne c hc '#' (by decide)
+  have hpct : c ≠ '%' := headClass_ne c hc '%' (by decide)
+  have hdot : c ≠ '.' := headClass_ne c hc '.' (by decide)
+  have hbar : c ≠ '|' := headClass_ne c hc '|' (by decide)
+  have hgt : c ≠ '>' := headClass_ne c hc '>' (by decide)
+  have hamp : c ≠ '&' := headClass_ne c hc '&' (by decide)
+  have hnocr : ((c :: r) ++ ['\n']).all (· != '\r') = true := by
+    rw [List.all_append]
+    refine Bool.and_eq_true_iff.mpr ⟨?_, by decide⟩
+    rw [List.all_eq_true] at hok ⊢
+    intro x hx
+    have := hok x hx
+    simp only [okc, Bool.and_eq_true] at this; exact this.2
+  have e0 : stripBom ((c :: r) ++ ['\n']) = (c :: r) ++ ['\n'] := by
+    unfold stripBom
+    split
+    · rename_i heq; exact absurd (List.cons.inj heq).1 hbom
+    · rfl
+  unfold loadChars
+  rw [e0, normBreaks_id _ hnocr, linesOf_line c r hsp hok]
+  unfold loadLines
+  simp only [List.length_cons, List.length_nil]
+  have hfill : Line.isFiller ⟨0, c :: r⟩ = false := by simp [Line.isFiller, hhash]
+  have hdocstart : isDocStart ⟨0, c :: r⟩ = false := by
+    unfold isDocStart isMarker
+    simp only [hstart, Bool.and_false, Bool.false_and]
+  have hdocend : isDocEnd ⟨0, c :: r⟩ = false := by
+    unfold isDocEnd isMarker
+    have h1 : ("...".toList).isPrefixOf (c :: r) = false := by
+      have e : "...".toList = ['.', '.', '.'] := by decide
+      have h2 : ('.' == c) = false := by simp [Ne.symm hdot]
+      rw [e]; simp only [List.isPrefixOf, h2, Bool.false_and]
+    simp only [h1, Bool.and_false, Bool.false_and]
+  simp only [parseDocs, skipFill, hfill, Bool.false_eq_true, if_false, List.head?_cons, Option.some.injEq, hpct,
+    false_and, hdocend, hdocstart, takeDoc, Bool.or_self]
+  have hp : (some c == some '%') = false := by simp [hpct]
+  have hbody : parseDocBody none [⟨0, c :: r⟩] = .ok nd := by
+    unfold parseDocBody
+    have : ∃ f, fuelOf [⟨0, c :: r⟩] + (Option.getD (none : Option Str) []).length * 2 = f + 2 :=
+      ⟨(r.length + 1 + 2) * 2 + 6, by simp [fuelOf]⟩
+    obtain ⟨f, hf⟩ := this
+    simp only [hf, parseBlock_inline f c r nd hsp htab hhash hbar hgt hamp hdash hkey hinl]
+    simp [skipFill]
+  simp only [hp, Bool.false_and, Bool.false_eq_true, if_false, hbody, Except.map, resolveDocs, hres]
+
+
+/-! ## The three kinds of layer-1 root text -/
+
+theorem restOk_nil : restOk [] = true := rfl
+
+theorem inline_tok (t : Str) (ht : tokOk t) :
+    isDash t = false ∧ splitKey t = .ok none ∧ parseInline t = .ok (.scalar true t) := by
+  have hp := parsePlain_tok false t [] ht (Or.inl rfl)
+  have hlen := plainLen_simple false t [] ht.1 (Or.inl rfl)
+  simp only [List.append_nil] at hp hlen
+  obtain ⟨hall, hne, hdash⟩ := ht
+  cases t with
+  | nil => exact absurd rfl hne
+  | cons c r =>
+    have hc : simpleChar c = true := by simp only [List.all_cons, Bool.and_eq_true] at hall; exact hall.1
+    refine ⟨?_, ?_, ?_⟩
+    · cases r with
+      | nil =>
+        by_cases h : c = '-'
+        · subst h; have := hdash rfl; simp at this
+        · unfold isDash; split <;> simp_all
+      | cons d r' =>
+        have hd : simpleChar d = true := by simp only [List.all_cons, Bool.and_eq_true] at hall; exact hall.2.1
+        have : d ≠ ' ' := (simpleChar_facts d hd).2.1
+        unfold isDash; split <;> simp_all
+    · unfold splitKey
+      split
+      all_goals (try (rename_i heq; have := (List.cons.inj heq).1; subst this; exact absurd hc (by decide)))
+      simp only [hlen, List.drop_length]
+    · unfold parseInline
+      split
+      all_goals (try (rename_i heq; have := (List.cons.inj heq).1; subst this; exact absurd hc (by decide)))
+      simp only [hp, restOk_nil, if_true]
+
+theorem inline_dq (sh eu : Bool) (s : Str) :
+    isDash (dqText sh eu s) = false ∧ splitKey (dqText sh eu s) = .ok none ∧
+      parseInline (dqText sh eu s) = .ok (.scalar false s) := by
+  have h := parseDQ_dqBody sh eu s []
+  refine ⟨by simp [dqText, isDash], ?_, ?_⟩
+  · simp only [dqText, splitKey, h]
+    simp [dropSpaces]
+  · simp only [dqText, parseInline, h, restOk_nil, if_true]
+
+theorem inline_coll (n : PNode) (h : n.l1 = true) (c : Char) (r : Str) (hx : n.flow = c :: r) (hc : c = '[' ∨ c = '{') :
+    isDash n.flow = false ∧ splitKey n.flow = .ok none ∧ parseInline n.flow = .ok n.node := by
+  have hb := need_bound n h
+  have hf := flowNode n h (4 * n.flow.length + 4) [] 0 (by omega) (Or.inl rfl)
+  simp only [spaces, List.replicate_zero, List.nil_append, List.append_nil] at hf
+  rw [hx] at hf ⊢
+  rcases hc with rfl | rfl
+  · refine ⟨by simp [isDash], by simp [splitKey], ?_⟩
+    simp only [parseInline, hf, restOk_nil, if_true]
+  · refine ⟨by simp [isDash], by simp [splitKey], ?_⟩
+    simp only [parseInline, hf, restOk_nil, if_true]
+
+
+/-! ## Layer 1: a single bare document whose root is a layer-1 node -/
+
+/-- The stream consisting of one bare document (no `---`, no `...`, no filler). -/
+def l1Stream (n : PNode) (g : Nat) : PStream := { docs := [{ root := n, rootMeta := { gap := g } }] }
+
+theorem flatMap_lf (l : Str) : (l.flatMap fun c => if c == '\n' then breakText .lf else [c]) = l := by
+  induction l with
+  | nil => rfl
+  | cons c t ih =>
+    rw [List.flatMap_cons, ih]
+    by_cases h : c = '\n' <;> simp [h, breakText]
+
+theorem value_l1 (n : PNode) (h : n.l1 = true) (m : Meta) :
+    n.value .root 0 0 m = spaces (m.gap + 1) ++ n.flow ++ trailText m.trail ++ ['\n'] := by
+  cases n with
+  | null v =>
+    have hv : ¬ (v % 5 = 4) := by simpa [PNode.l1] using h
+    simp [PNode.value, PNode.flow, hv]
+  | bool b v => simp [PNode.value, PNode.flow]
+  | int i v => simp [PNode.value, PNode.flow]
+  | str s st =>
+    cases st <;> simp [PNode.l1] at h
+    simp [PNode.value, PNode.flow]
+  | seq fl st c items =>
+    have hfl : fl = true := by cases fl <;> simp [PNode.l1] at h ⊢
+    subst hfl; simp [PNode.value]
+  | map fl st c es =>
+    have hfl : fl = true := by cases fl <;> simp [PNode.l1] at h ⊢
+    subst hfl; simp [PNode.value]
+  | anchored a n => simp [PNode.l1] at h
+  | alias a t => simp [PNode.l1] at h
+
+theorem isBlockColl_l1 (n : PNode) (h : n.l1 = true) : n.isBlockColl = false := by
+  cases n with
+  | seq fl st c items =>
+    have hfl : fl = true := by cases fl <;> simp [PNode.l1] at h ⊢
+    subst hfl; rfl
+  | map fl st c es =>
+    have hfl : fl = true := by cases fl <;> simp [PNode.l1] at h ⊢
+    subst hfl; rfl
+  | _ => rfl
+
+theorem chars_l1 (n : PNode) (h : n.l1 = true) (g : Nat) : (l1Stream n g).chars = n.flow ++ ['\n'] := by
+  obtain ⟨c, r, hx, g1, _⟩ := goodHead_flow n h
+  simp only [PStream.chars, l1Stream, List.flatMap_cons, List.flatMap_nil, List.append_nil, flatMap_lf]
+  simp only [PDoc.text, fillText, List.flatMap_nil, List.nil_append, Bool.false_eq_true, if_false,
+    isBlockColl_l1 n h, Bool.false_and, value_l1 n h, trailText, List.append_nil]
+  rw [hx]
+  have := dropSpaces_spaces (g + 1) c (r ++ ['\n']) g1
+  simpa [dropSpaces, List.append_assoc] using this
+
+theorem notMarker_null (v : Nat) : ("---".toList).isPrefixOf (nullText v) = false := by
+  have : v % 5 = 0 ∨ v % 5 = 1 ∨ v % 5 = 2 ∨ v % 5 = 3 ∨ v % 5 = 4 := by omega
+  rcases this with h | h | h | h | h <;> simp only [nullText, h] <;> decide
+
+theorem notMarker_bool (b : Bool) (v : Nat) : ("---".toList).isPrefixOf (boolText b v) = false := by
+  have : v % 3 = 0 ∨ v % 3 = 1 ∨ v % 3 = 2 := by omega
+  cases b <;> rcases this with h | h | h <;> simp only [boolText, h] <;> decide
+
+theorem notMarker_of_head (c : Char) (r : Str) (h : c ≠ '-') : ("---".toList).isPrefixOf (c :: r) = false := by
+  have e : "---".toList = ['-', '-', '-'] := by decide
+  have h2 : ('-' == c) = false := by simp [Ne.symm h]
+  rw [e]; simp only [List.isPrefixOf, h2, Bool.false_and]
+
+theorem notMarker_int (i : Int) (v : Nat) (h : v % 5 = 0) : ("---".toList).isPrefixOf (intText i v) = false := by
+  have e : "---".toList = ['-', '-', '-'] := by decide
+  unfold intText
+  simp only [h]
+  split
+  · cases hd : natDigits 10 i.toNat with
+    | nil => rw [e]; rfl
+    | cons c t =>
+      have hm : c ∈ Nat.toDigits 10 i.toNat := by
+        have : natDigits 10 i.toNat = Nat.toDigits 10 i.toNat := rfl
+        rw [← this, hd]; simp
+      have := Nat.isDigit_of_mem_toDigits (b := 10) (by decide) (by decide) hm
+      exact notMarker_of_head c t (by intro hc; subst hc; exact absurd this (by decide))
+  · cases hd : natDigits 10 i.natAbs with
+    | nil => rw [e]; rfl
+    | cons c t =>
+      have hm : c ∈ Nat.toDigits 10 i.natAbs := by
+        have : natDigits 10 i.natAbs = Nat.toDigits 10 i.natAbs := rfl
+        rw [← this, hd]; simp
+      have := Nat.isDigit_of_mem_toDigits (b := 10) (by decide) (by decide) hm
+      have h2 : ('-' == c) = false := by
+        have : c ≠ '-' := by intro hc; subst hc; exact absurd this (by decide)
+        simp [Ne.symm this]
+      rw [e]; simp only [List.isPrefixOf, beq_self_eq_true, Bool.true_and, h2, Bool.false_and]
+
+theorem headClass_tok (t : Str) (ht : tokOk t) : ∃ c r, t = c :: r ∧ headClass c := by
+  obtain ⟨hall, hne, _⟩ := ht
+  cases t with
+  | nil => exact absurd rfl hne
+  | cons c r =>
+    exact ⟨c, r, rfl, Or.inl (by simp only [List.all_cons, Bool.and_eq_true] at hall; exact hall.1)⟩
+
+theorem load_tok (t : Str) (ht : tokOk t) (hm : ("---".toList).isPrefixOf t = false) (tr : Tree)
+    (hres : (Node.scalar true t).resolve [] = .ok (tr, [])) : loadChars (t ++ ['\n']) = .ok [tr] := by
+  obtain ⟨c, r, rfl, hc⟩ := headClass_tok t ht
+  obtain ⟨h1, h2, h3⟩ := inline_tok _ ht
+  exact loadChars_inline c r _ tr hc (okc_tok _ ht) h1 hm h2 h3 hres
+
+/-- Layer 1 on characters. -/
+theorem loadChars_l1 (n : PNode) (h : n.l1 = true) (g : Nat) :
+    loadChars (l1Stream n g).chars = .ok [n.tree] := by
+  rw [chars_l1 n h g]
+  have hres := resolveNode n h []
+  cases n with
+  | null v =>
+    exact load_tok _ (tokOk_nullText v (by simpa [PNode.l1] using h)) (notMarker_null v) _ hres
+  | bool b v => exact load_tok _ (tokOk_boolText b v) (notMarker_bool b v) _ hres
+  | int i v =>
+    have hv : v % 5 = 0 := by simpa [PNode.l1] using h
+    exact load_tok _ (tokOk_intText i v hv) (notMarker_int i v hv) _ hres
+  | str s st =>
+    cases st <;> simp [PNode.l1] at h
+    rename_i sh eu
+    obtain ⟨h1, h2, h3⟩ := inline_dq sh eu s
+    have hok := okc_dqText sh eu s
+    simp only [PNode.flow, strFlowText] at *
+    simp only [dqText] at *
+    exact loadChars_inline '"' _ _ _ (Or.inr (Or.inl rfl)) hok h1 (notMarker_of_head _ _ (by decide)) h2 h3 hres
+  | seq fl st c items =>
+    have hfl : fl = true := by cases fl <;> simp [PNode.l1] at h ⊢
+    subst hfl
+    obtain ⟨h1, h2, h3⟩ := inline_coll _ h '[' _ rfl (Or.inl rfl)
+    have hok := okc_flow _ h
+    simp only [PNode.flow] at *
+    exact loadChars_inline '[' _ _ _ (Or.inr (Or.inr (Or.inl rfl))) hok h1 (notMarker_of_head _ _ (by decide)) h2 h3 hres
+  | map fl st c es =>
+    have hfl : fl = true := by cases fl <;> simp [PNode.l1] at h ⊢
+    subst hfl
+    obtain ⟨h1, h2, h3⟩ := inline_coll _ h '{' _ rfl (Or.inr rfl)
+    have hok := okc_flow _ h
+    simp only [PNode.flow] at *
+    exact loadChars_inline '{' _ _ _ (Or.inr (Or.inr (Or.inr rfl))) hok h1 (notMarker_of_head _ _ (by decide)) h2 h3 hres
+  | anchored a n => simp [PNode.l1] at h
+  | alias a t => simp [PNode.l1] at h
+
+
+/-! ## Line-break layer -/
+
+def subBreaks (b : Break) (t : Str) : Str := t.flatMap fun c => if c == '\n' then breakText b else [c]
+
+theorem normBreaks_crlf (t : Str) (h : t.all (· != '\r') = true) : normBreaks (subBreaks .crlf t) = t := by
+  induction t with
+  | nil => simp [subBreaks, normBreaks]
+  | cons c t ih =>
+    simp only [List.all_cons, Bool.and_eq_true] at h
+    have hc : c ≠ '\r' := by simpa using h.1
+    have ih' := ih h.2
+    unfold subBreaks at ih' ⊢
+    rw [List.flatMap_cons]
+    by_cases hn : c = '\n'
+    · subst hn
+      simp only [breakText, beq_self_eq_true, if_true, List.cons_append, List.nil_append]
+      rw [normBreaks.eq_def]
+      simp only [breakText] at ih'
+      simp only [ih']
+    · have hn2 : (c == '\n') = false := by simp [hn]
+      simp only [hn2, Bool.false_eq_true, if_false, List.cons_append, List.nil_append]
+      rw [normBreaks.eq_def]
+      split
+      · rename_i heq; simp at heq
+      · rename_i heq; exact absurd (List.cons.inj heq).1 hc
+      · rename_i heq; exact absurd (List.cons.inj heq).1 hc
+      · rename_i c' rest _ _ heq
+        obtain ⟨rfl, rfl⟩ := List.cons.inj heq
+        rw [ih']
+
+theorem normBreaks_noLf (u : Str) (h : u.all (· != '\n') = true) :
+    normBreaks u = u.map (fun c => if c == '\r' then '\n' else c) := by
+  induction u with
+  | nil => simp [normBreaks]
+  | cons c u ih =>
+    simp only [List.all_cons, Bool.and_eq_true] at h
+    have ih' := ih h.2
+    rw [normBreaks.eq_def]
+    split
+    · rename_i heq; simp at heq
+    · rename_i rest heq
+      exfalso
+      have h2 := (List.cons.inj heq).2
+      rw [h2] at h
+      simp at h
+    · rename_i rest _ heq
+      obtain ⟨rfl, rfl⟩ := List.cons.inj heq
+      simp [ih']
+    · rename_i c' rest h1 h2 heq
+      obtain ⟨rfl, rfl⟩ := List.cons.inj heq
+      have : c ≠ '\r' := by
+        intro hc; subst hc; exact h2 rfl
+      simp [ih', this]
+
+theorem normBreaks_cr (t : Str) (h : t.all (· != '\r') = true) : normBreaks (subBreaks .cr t) = t := by
+  have hno : (subBreaks .cr t).all (· != '\n') = true := by
+    unfold subBreaks
+    rw [List.all_eq_true]
+    intro x hx
+    obtain ⟨c, _, hc⟩ := List.mem_flatMap.mp hx
+    by_cases hn : c = '\n'
+    · subst hn; simp [breakText] at hc; subst hc; decide
+    · have hn2 : (c == '\n') = false := by simp [hn]
+      simp [hn2] at hc; subst hc; simpa using hn
+  rw [normBreaks_noLf _ hno]
+  clear hno
+  unfold subBreaks
+  induction t with
+  | nil => rfl
+  | cons c t ih =>
+    simp only [List.all_cons, Bool.and_eq_true] at h
+    have hc : c ≠ '\r' := by simpa using h.1
+    rw [List.flatMap_cons, List.map_append, ih h.2]
+    by_cases hn : c = '\n'
+    · subst hn; simp [breakText]
+    · have hn2 : (c == '\n') = false := by simp [hn]
+      simp [hn2, hc]
+
+theorem normBreaks_lf (t : Str) (h : t.all (· != '\r') = true) : normBreaks (subBreaks .lf t) = t := by
+  unfold subBreaks
+  rw [flatMap_lf, normBreaks_id _ h]
+
+theorem normBreaks_sub (b : Break) (t : Str) (h : t.all (· != '\r') = true) : normBreaks (subBreaks b t) = t := by
+  cases b
+  · exact normBreaks_lf t h
+  · exact normBreaks_crlf t h
+  · exact normBreaks_cr t h
+
+
+/-- The stream's text with LF line breaks. -/
+def PStream.lfChars (s : PStream) : Str := s.docs.flatMap PDoc.text
+
+theorem chars_eq_sub (s : PStream) : s.chars = subBreaks s.br s.lfChars := rfl
+
+theorem stripBom_sub (b : Break) (t : Str) : stripBom (subBreaks b t) = subBreaks b (stripBom t) := by
+  cases t with
+  | nil => rfl
+  | cons c t' =>
+    by_cases hb : c = '﻿'
+    · subst hb
+      simp [subBreaks, stripBom]
+    · have e1 : stripBom (c :: t') = c :: t' := by
+        unfold stripBom; split
+        · rename_i heq; exact absurd (List.cons.inj heq).1 hb
+        · rfl
+      rw [e1]
+      unfold subBreaks
+      rw [List.flatMap_cons]
+      by_cases hn : c = '\n'
+      · subst hn
+        cases b <;> simp [breakText, stripBom]
+      · have hn2 : (c == '\n') = false := by simp [hn]
+        simp only [hn2, Bool.false_eq_true, if_false, List.cons_append, List.nil_append]
+        unfold stripBom; split
+        · rename_i heq; exact absurd (List.cons.inj heq).1 hb
+        · rfl
+
+theorem all_stripBom (t : Str) (h : t.all (· != '\r') = true) : (stripBom t).all (· != '\r') = true := by
+  unfold stripBom; split
+  · simp only [List.all_cons, Bool.and_eq_true] at h; exact h.2
+  · exact h
+
+/-- Loading does not depend on the line-break convention, for every stream whose LF text contains no
+carriage return. -/
+theorem loadChars_breaks (s : PStream) (h : s.lfChars.all (· != '\r') = true) :
+    loadChars s.chars = loadLines (linesOf (stripBom s.lfChars)) := by
+  rw [chars_eq_sub]
+  unfold loadChars
+  rw [stripBom_sub, normBreaks_sub _ _ (all_stripBom _ h)]
+
+theorem lfChars_l1 (n : PNode) (h : n.l1 = true) (g : Nat) : (l1Stream n g).lfChars = n.flow ++ ['\n'] := by
+  have := chars_l1 n h g
+  rw [chars_eq_sub] at this
+  simp only [l1Stream, subBreaks, flatMap_lf] at this
+  exact this
+
+theorem loadChars_l1_breaks (n : PNode) (h : n.l1 = true) (g : Nat) (b : Break) :
+    loadChars ({ l1Stream n g with br := b } : PStream).chars = .ok [n.tree] := by
+  have e : ({ l1Stream n g with br := b } : PStream).lfChars = (l1Stream n g).lfChars := rfl
+  have hl := lfChars_l1 n h g
+  have hnocr : (l1Stream n g).lfChars.all (· != '\r') = true := by
+    rw [hl, List.all_append]
+    refine Bool.and_eq_true_iff.mpr ⟨?_, by decide⟩
+    have hok := okc_flow n h
+    rw [List.all_eq_true] at hok ⊢
+    intro x hx
+    have := hok x hx
+    simp only [okc, Bool.and_eq_true] at this; exact this.2
+  rw [loadChars_breaks _ (by rw [e]; exact hnocr), e]
+  have h0 := loadChars_l1 n h g
+  rw [loadChars_breaks _ hnocr] at h0
+  exact h0
+
+
 end SV.Yaml
